@@ -47,6 +47,64 @@ theorem leO_iff (a b : Option K) : leO a b = true ↔ wb a ≤ wb b := by
   rw [← not_lt, ← ltO_iff]; simp [leO]
 
 
+/-! ### the extracted tokens, resolved
+
+These lemmas are the proof obligations on `Rl4co/Generated/Params.lean` (regenerated from the Python source
+on every run): each holds only for the committed value of its token, and everything below goes through them. -/
+
+theorem topkOn_eq (k : Nat) : topkOn k = decide (0 < k) := by
+  simp [topkOn, Params.logitsTopkOnCmp, Cmp.evalNat]
+
+theorem kEff_eq (n k : Nat) : kEff n k = min k n := by
+  simp [kEff, Params.logitsTopkClampMin, Params.logitsTopkFilter]
+
+theorem cmpO_topk (a b : Option K) : cmpO topkCmp a b = ltO a b := by
+  simp [topkCmp, Params.logitsTopkFilter, cmpO]
+
+theorem toppOff_iff (p : K) : toppOff p = true ↔ (p ≤ 0 ∨ 1 ≤ p) := by
+  simp only [toppOff, Params.logitsToppOnCmp, Params.logitsToppGuardCmps, List.getD_cons_zero, List.getD_cons_succ,
+    cmpK, Bool.or_eq_true, Bool.not_eq_true', decide_eq_false_iff_not, not_lt]
+  tauto
+
+theorem toppFlag_iff (cum p : K) : toppFlag cum p = true ↔ cum ≤ 1 - p := by
+  simp [toppFlag, toppThr, Params.logitsToppCmp, cmpK]
+
+theorem sortLe_eq (a b : Option K) : sortLe a b = leO a b := by
+  simp [sortLe, Params.logitsSortDescending]
+
+theorem greedyLe_eq (b a : Option K) : greedyLe b a = leO b a := by
+  simp [greedyLe, Params.logitsGreedyArgmax]
+
+theorem protPos_eq (n : Nat) : protPos n = n - 1 := by
+  simp [protPos, Params.logitsToppProtectedIdx]
+
+theorem maskStage_eq (mask : Nat → Bool) (x : Nat → K) (j : Nat) :
+    maskStage mask x j = if mask j = true then some (x j) else none := by
+  simp only [maskStage, maskFilled, Params.logitsMaskFill]
+  cases mask j <;> simp
+
+theorem stageOrder_eq : stageOrder = [.clip, .mask, .temp, .topk, .topp] := by
+  decide
+
+theorem rowFlag_eq (m : Nat → Bool) (a : Nat) : rowFlag m a = !m a := by
+  simp [rowFlag, Params.logitsSampleLoop]
+
+theorem contCond_eq (flags : List Bool) : contCond flags = flags.any id := by
+  simp [contCond, Params.logitsSampleLoop]
+
+theorem kthValid_iff (n k : Nat) (X : Nat → Option K) (kth : Nat) : KthValid n k X kth ↔
+    (kth < n ∧ cnt n (fun j => ltO (X kth) (X j)) < min k n ∧ min k n ≤ cnt n (fun j => leO (X kth) (X j))) := by
+  simp only [KthValid, kEff_eq]
+
+theorem sortValid_iff (n : Nat) (X : Nat → Option K) (σ : Nat → Nat) : SortValid n X σ ↔
+    ((∀ i, i < n → σ i < n) ∧ (∀ i, i < n → ∀ i', i' < n → σ i = σ i' → i = i') ∧
+      (∀ i, i < n → i + 1 < n → leO (X (σ i)) (X (σ (i + 1))) = true)) := by
+  simp only [SortValid, sortLe_eq]
+
+theorem greedyValid_iff (n : Nat) (lg : Nat → Option K) (a : Nat) : GreedyValid n lg a ↔
+    (a < n ∧ ∀ j, j < n → leO (lg j) (lg a) = true) := by
+  simp only [GreedyValid, greedyLe_eq]
+
 /-! ### the stages, unfolded -/
 
 variable (w clip : K → K) (c : Cfg K) (n : Nat) (x : Nat → K) (mask : Nat → Bool) (kth : Nat) (σ : Nat → Nat)
@@ -56,17 +114,18 @@ abbrev score : Nat → K := clipStage c.clipOn clip x
 
 theorem pre_get (j : Nat) : (pre clip c n x mask).get j =
     if mask j = true then some (score clip c x j / c.temp) else none := by
-  simp only [pre, Vec.tab_get, tempStage, maskStage]
+  simp only [pre, Vec.tab_get, tempStage, maskStage_eq]
   split <;> simp
 
 theorem afterK_get (j : Nat) : (afterK clip c n x mask kth).get j =
     if c.topK = 0 then (pre clip c n x mask).get j
     else if ltO ((pre clip c n x mask).get j) ((pre clip c n x mask).get kth) = true then none
     else (pre clip c n x mask).get j := by
-  simp only [afterK, topKStage]
-  split
-  · rfl
-  · simp only [Vec.tab_get]
+  simp only [afterK, topKStage, topkOn_eq]
+  by_cases hk : c.topK = 0
+  · simp [hk]
+  · have : 0 < c.topK := Nat.pos_of_ne_zero hk
+    simp only [hk, if_false, this, decide_true, Bool.not_true, Bool.false_eq_true, Vec.tab_get, cmpO_topk]
 
 theorem softmax_get (X : Nat → Option K) (j : Nat) :
     (softmaxN n w X).get j = wO w (X j) / ∑ i ∈ range n, wO w (X i) := by
@@ -74,24 +133,45 @@ theorem softmax_get (X : Nat → Option K) (j : Nat) :
 
 theorem toppRem_get (p : K) (X : Vec (Option K)) (i : Nat) :
     (toppRem n w p σ X).get i = true ↔
-      i + 1 ≠ n ∧ ∑ t ∈ range (i + 1), (softmaxN n w (fun i => X.get (σ i))).get t ≤ 1 - p := by
-  simp only [toppRem, Vec.tab_get, sumN_eq_sum]
+      i ≠ n - 1 ∧ ∑ t ∈ range (i + 1), (softmaxN n w (fun i => X.get (σ i))).get t ≤ 1 - p := by
+  simp only [toppRem, Vec.tab_get, sumN_eq_sum, protPos_eq]
   split
   · rename_i h; simp [h]
-  · rename_i h; simp [h]
+  · rename_i h; simp [h, toppFlag_iff]
 
 /-- the line `sorted_indices_to_remove[..., -1] = False`: the last sorted position is never flagged -/
-theorem toppRem_last (p : K) (X : Vec (Option K)) (hn : 0 < n) : (toppRem n w p σ X).get (n - 1) = false := by
-  simp only [toppRem, Vec.tab_get]
-  rw [if_pos (by omega)]
+theorem toppRem_last (p : K) (X : Vec (Option K)) : (toppRem n w p σ X).get (n - 1) = false := by
+  simp only [toppRem, Vec.tab_get, protPos_eq, if_true]
 
 theorem topP_get (p : K) (X : Vec (Option K)) (j : Nat) : (topPStage n w p σ X).get j =
     if p ≤ 0 ∨ 1 ≤ p then X.get j
     else if (∃ i, i < n ∧ σ i = j ∧ (toppRem n w p σ X).get i = true) then none else X.get j := by
   simp only [topPStage]
-  split
-  · rfl
-  · simp only [Vec.tab_get, List.any_eq_true, List.mem_range, Bool.and_eq_true, beq_iff_eq]
+  by_cases h : p ≤ 0 ∨ 1 ≤ p
+  · rw [if_pos ((toppOff_iff p).mpr h), if_pos h]
+  · rw [if_neg (fun h' => h ((toppOff_iff p).mp h')), if_neg h]
+    simp only [Vec.tab_get, List.any_eq_true, List.mem_range, Bool.and_eq_true, beq_iff_eq]
+
+/-- with the committed order of the statements, the first three stages compute `pre` … -/
+theorem stages_pre :
+    applyStage w clip c n mask kth σ .temp (applyStage w clip c n mask kth σ .mask
+      (applyStage w clip c n mask kth σ .clip (Vec.tab n (fun j => some (x j))))) = pre clip c n x mask := by
+  simp only [applyStage, pre, Vec.tab_eq]
+  by_cases hc : c.clipOn = true
+  · simp only [hc, if_true]
+    congr 1
+  · simp only [hc]
+    congr 1
+
+/-- … and `process_logits` is: clip → mask → temperature → top-k → top-p → softmax.  (Proof obligation on the
+extracted `logitsStageOrder`.) -/
+theorem runStages_canonical :
+    runStages w clip c n mask kth σ stageOrder (Vec.tab n (fun j => some (x j))) =
+      topPStage n w c.topP σ (afterK clip c n x mask kth) := by
+  rw [stageOrder_eq]
+  simp only [runStages, List.foldl]
+  rw [stages_pre]
+  rfl
 
 theorem wO_nonneg (hw : ExpLike w) (a : Option K) : 0 ≤ wO w a := by
   cases a with
@@ -176,7 +256,7 @@ theorem topk_card_core (hT : 0 < c.temp) (hk0 : c.topK ≠ 0)
     (hkept : ∀ j, j < n → kept j = true → ((afterK clip c n x mask kth).get j).isSome = true)
     (j0 : Nat) (hj0 : j0 < n) (hk : kept j0 = true) :
     cnt n (fun j => kept j && decide (score clip c x j0 < score clip c x j)) < c.topK := by
-  obtain ⟨_, hlt, _⟩ := hv
+  obtain ⟨_, hlt, _⟩ := (kthValid_iff _ _ _ _).mp hv
   refine lt_of_le_of_lt (cnt_mono ?_) (lt_of_lt_of_le hlt (Nat.min_le_left _ _))
   intro j hj hpj
   simp only [Bool.and_eq_true, decide_eq_true_eq] at hpj
@@ -198,9 +278,10 @@ theorem topk_ge_feasible_core (hk : c.topK = 0 ∨ KthValid n c.topK (pre clip c
   have h3 := pre_of_mask clip c n x mask hm
   by_cases hk0 : c.topK = 0
   · rw [afterK_get]; simp [hk0, h3]
-  · rcases hk with h | ⟨_, _, hge⟩
+  · rcases hk with h | hkv
     · exact absurd h hk0
-    · by_contra hnone
+    · obtain ⟨_, _, hge⟩ := (kthValid_iff _ _ _ _).mp hkv
+      by_contra hnone
       have hlt : wb ((pre clip c n x mask).get j) < wb ((pre clip c n x mask).get kth) := by
         by_contra hnl
         rw [afterK_eq_of_ge clip c n x mask kth (fun _ => not_lt.mp hnl), h3] at hnone
@@ -237,9 +318,9 @@ theorem afterK_of_max (hk : c.topK = 0 ∨ KthValid n c.topK (pre clip c n x mas
     (afterK clip c n x mask kth).get j = (pre clip c n x mask).get j := by
   apply afterK_eq_of_ge
   intro hk0
-  rcases hk with h | ⟨hkn, _, _⟩
+  rcases hk with h | hkv
   · exact absurd h hk0
-  · exact hmax kth hkn
+  · exact hmax kth hkv.1
 
 
 /-! ### top-p -/
@@ -321,7 +402,7 @@ theorem topP_last_kept (_hw : ExpLike w) (hσ : (p ≤ 0 ∨ 1 ≤ p) ∨ SortVa
         obtain ⟨i, hi, hσi, hrem⟩ := hex
         have hi' : i = n - 1 := hσ.2.1 i hi (n - 1) (by omega) hσi
         subst hi'
-        rw [toppRem_last w n σ p X hn] at hrem
+        rw [toppRem_last w n σ p X] at hrem
         exact Bool.false_ne_true hrem
       · rfl
 
